@@ -399,6 +399,12 @@ fn gen(seed: u64, family: &str, tier: Tier) -> Case {
         simcfg.clock_fault_rate = *r.pick(&[0.0, 0.01, 0.05, 0.2]);
         simcfg.clock_jump_ns = limit_s.max(1) * 1_000_000_000 * *r.pick(&[1u64, 2]) + r.below(1000);
     }
+    // round 8 (a stream of its own): a plain runtime limit may be configured without naming its type
+    if w.termination["type"] == json!("query_runtime") && Rng::new(seed ^ fnv64("C10-partial-termination")).chance(0.3) {
+        w.termination_partial = true;
+    }
+    let w_termination_text = w.termination.to_string();
+    let algo_text = w.algorithm.to_string();
     Case {
         check: "C10".into(),
         seed,
@@ -409,7 +415,18 @@ fn gen(seed: u64, family: &str, tier: Tier) -> Case {
         run_parallelism: None,
         simcfg,
         recorded: None,
-        params: Value::Null,
+        params: {
+            // round 8 (a stream of its own): counting limits only - outcomes do not depend on the clock - and a plain
+            // search: the application is built again 2-5 times in this process, each time after one with generous
+            // limits was built, used and dropped
+            let mut r8 = Rng::new(seed ^ fnv64("C10-reload"));
+            let t = w_termination_text;
+            if !t.contains("query_runtime") && !algo_text.contains("ksp") && !algo_text.contains("yens") && r8.chance(0.35) {
+                json!({"reload_rounds": r8.range(2, 5)})
+            } else {
+                Value::Null
+            }
+        },
     }
 }
 
@@ -676,6 +693,22 @@ fn judge(case: &Case, obs: &Obs) -> (Vec<Violation>, BTreeMap<String, u64>, bool
             return (v, reach, false);
         }
     };
+    // round 8: every rebuilt application answers the batch like the first one did
+    for (ri, rl) in obs.reloads.iter().enumerate() {
+        bump("applications_built_again_after_one_with_other_limits", 1);
+        match rl.as_array() {
+            Some(rs) => {
+                for (c, d) in crate::oracle::compare_by_request(&run, rs, 1e-9) {
+                    v.push(Violation { class: format!("rebuilt-application-{}", c), detail: format!("the application built again in the same process (round {}, after one with generous limits was dropped) answers differently under limits {}: {}", ri, case.world.termination, d) });
+                    break;
+                }
+            }
+            None => v.push(Violation { class: "rebuilt-application-failed".into(), detail: rl.to_string().chars().take(300).collect() }),
+        }
+    }
+    if case.world.termination_partial {
+        bump("runtime_limit_configured_without_its_type", 1);
+    }
     // a world without dead ends makes every loop turn visible as one expansion group
     let w = &case.world;
     let exact = (0..w.nv()).all(|x| w.edges.iter().any(|e| e.0 == x));
